@@ -90,6 +90,16 @@ CHECKS = {
          "Timestamps from a dense 12-value domain, durations {1,2,3,5} ms, caps {1,2,3,8}; retention of old windows modelled as the "
          "code does it (not part of the invariant); clock injected via the verif-hooks feature; TLC and the harness projection are trusted.",
          "TLA+ state-machine spec, TLC state-graph dump + simulated behaviours replayed on the real objects"),
+ "C14": ("model_checking",
+         "TLC checks on all arrival orders and watermark/eviction choices of the bounded model that every emitted pair qualifies, "
+         "none is emitted twice and, while nothing was evicted, the emitted set equals the reference join (hence independent of the "
+         "interleaving); the complete no-eviction graph (= every merge of every pair of short sequences) is replayed on the real "
+         "StreamJoinNode and through StreamJoinManager; histories with evicting watermarks recorded from the real node are validated "
+         "by TLC, which infers the evicted subset.",
+         "DESIGN.md §4 C14",
+         "Exhaustive for 2+2 events over keys {a,b,none}, 3-4 timestamps, W=1; 4+4 events over 3 keys by TLC simulation and recorded "
+         "traces; whole-second windows; inner join only; TLC and the harness projection are trusted.",
+         "TLA+ interleaving spec checked by TLC; state-graph replay on the real node (all merges); trace validation of recorded eviction histories"),
 }
 
 NOT_YET = "check not built yet in this round (see DESIGN.md §9 build order); no claim is made"
